@@ -949,7 +949,7 @@ def run(tier: str) -> int:
     ck.cov["concurrent_groups"] = n_groups
 
     try:
-        explore_conversion(ck, drv, rng("c06-convert"), 400 if tier == "quick" else 20000)
+        explore_conversion(ck, drv, rng("c06-convert"), 400 if tier == "quick" else 5000)
     except ImportError as e:
         ck.notes.append(f"key-conversion stream not run: {e}")
 
